@@ -280,8 +280,11 @@ class DIMSEServiceProvider:
                 return
 
             # Keep C-CANCEL requests separate from other messages
-            # Only allow up to 10 C-CANCEL requests
-            if isinstance(d_primitive, C_CANCEL) and len(self.cancel_req) < 10:
+            # Only keep up to 10 C-CANCEL requests, discarding the oldest
+            if isinstance(d_primitive, C_CANCEL):
+                if len(self.cancel_req) >= 10:
+                    del self.cancel_req[next(iter(self.cancel_req))]
+
                 msg_id = cast(int, d_primitive.MessageIDBeingRespondedTo)
                 self.cancel_req[msg_id] = d_primitive
             elif (
